@@ -245,95 +245,7 @@ def gen_program(rnd):
     return prog
 
 
-# ---------- observation ----------
-def node_value(e):
-    v = e.value
-    if isinstance(v, bool):
-        return {"k": "bool", "v": v, "line": e.lineno}
-    if isinstance(v, int):
-        return {"k": "int", "v": v, "line": e.lineno}
-    if isinstance(v, float):
-        return {"k": "float", "v": v, "line": e.lineno}
-    if isinstance(v, str):
-        return {"k": "str", "v": v, "line": e.lineno}
-    if isinstance(v, list):
-        return {"k": "list", "v": [node_value(x) for x in v], "line": e.lineno}
-    if isinstance(v, dict):
-        return {"k": "dict", "v": [(k, node_value(x)) for k, x in v.items()], "line": e.lineno}
-    raise ValueError(type(v))
-
-
-def observe(parser, src):
-    try:
-        pn = parser.parse(src)
-    except SyntaxError:
-        return ("syntax",)
-    except BaseException as ex:
-        return ("escaped", type(ex).__name__, str(ex)[:100])
-    if pn is None:
-        return ("escaped", "None", "parse() returned None")
-    cmds = []
-    for c in pn.commands:
-        cmds.append({"result": c.result_name, "cmd": c.command, "line": c.lineno,
-                     "args": [{"name": a.name, "value": node_value(a.value), "line": a.lineno} for a in c.arguments]})
-    return ("ok", cmds, pn.version)
-
-
-def same_value(exp, got, with_lines):
-    if exp["k"] != got["k"]:
-        return False
-    if with_lines and exp["line"] != got["line"]:
-        return False
-    if exp["k"] == "list":
-        return len(exp["v"]) == len(got["v"]) and all(same_value(a, b, with_lines) for a, b in zip(exp["v"], got["v"]))
-    if exp["k"] == "dict":
-        return len(exp["v"]) == len(got["v"]) and all(k1 == k2 and same_value(a, b, with_lines) for (k1, a), (k2, b) in zip(exp["v"], got["v"]))
-    if exp["k"] == "float":
-        return exp["v"] == got["v"] and math.copysign(1, exp["v"]) == math.copysign(1, got["v"])
-    return exp["v"] == got["v"] and type(exp["v"]) is type(got["v"])
-
-
-# ---------- Coq printers ----------
-def ctext(s):
-    return "[" + "; ".join(str(ord(c)) for c in s) + "]"
-
-
-def c_oval(v):
-    k = v["k"]
-    if k == "int":
-        body = "(OVInt %s)" % cZ(v["v"])
-    elif k == "float":
-        if math.isinf(v["v"]) or math.isnan(v["v"]):
-            raise ValueError("nonfinite")
-        body = "(OVFloat %s)" % cQ(Fr(v["v"]))
-    elif k == "str":
-        body = "(OVStr %s)" % ctext(v["v"])
-    elif k == "list":
-        body = "(OVList %s)" % clist([c_oval(x) for x in v["v"]])
-    elif k == "dict":
-        body = "(OVDict %s)" % clist(["(%s, %s)" % (ctext(kk), c_oval(x)) for kk, x in v["v"]])
-    else:
-        raise ValueError(k)
-    return "(OE %s %d)" % (body, v["line"])
-
-
-def c_observed(o):
-    if o[0] == "syntax":
-        return "ObsSyntaxError"
-    cmds = []
-    for c in o[1]:
-        args = clist(["{| oa_name := %s; oa_value := %s; oa_line := %d |}" % (ctext(a["name"]), c_oval(a["value"]), a["line"]) for a in c["args"]])
-        cmds.append("{| oc_result := %s; oc_cmd := %s; oc_args := %s; oc_line := %d |}" % (copt(None if c["result"] is None else ctext(c["result"])), ctext(c["cmd"]), args, c["line"]))
-    return "(ObsOk %s %d)" % (clist(cmds, ";\n     "), o[2])
-
-
-def float_oracle(src):
-    """str(float(lexeme)) for everything in the text that the FLOAT rule can match"""
-    import re
-    out = {}
-    for m in re.finditer(r"[\-\+]?((\d+\.\d*)|(\.\d+))([eE][\+\-]?\d+)?", src):
-        out[m.group(0)] = str(float(m.group(0)))
-    return out
+from parse_lib import node_value, observe, same_value, ctext, c_oval, c_observed, float_oracle  # noqa: E402
 
 
 def main():
